@@ -1,4 +1,150 @@
 package main
 
-// Mutation self-test for the thorough tier (filled in later).
-func runSelfTest(prop, repo, verif string, seed int64, r *Report) {}
+// Thorough tier: checker self-test. For the property under check, every
+// seeded mutant under /verif/seeded whose meta.json says this property's check
+// detects it is applied to a scratch copy of /repo's *current working tree*
+// and the same static analysis is run on the copy (nothing is executed); every
+// behaviour-preserving refactoring under /verif/neutral is applied likewise
+// and must stay silent. Results go into the evidence; they describe the
+// checker, not /repo, so they never turn into a VIOLATION of the property.
+
+import (
+	"encoding/json"
+	"fmt"
+	"os"
+	"os/exec"
+	"path/filepath"
+	"sort"
+	"strings"
+	"sync"
+)
+
+type selfTestCase struct {
+	ID     string `json:"id"`
+	Kind   string `json:"kind"` // mutant | neutral
+	Result string `json:"result"`
+	Detail string `json:"detail,omitempty"`
+}
+
+func runSelfTest(prop, repo, verif string, seed int64, r *Report) {
+	if os.Getenv("RARECHECK_NO_SELFTEST") != "" {
+		return
+	}
+	self, err := os.Executable()
+	if err != nil {
+		r.Notes = append(r.Notes, "self-test skipped: "+err.Error())
+		return
+	}
+	type job struct {
+		id, kind, patch string
+	}
+	var jobs []job
+	seedDirs, _ := filepath.Glob(filepath.Join(verif, "seeded", "*", "meta.json"))
+	sort.Strings(seedDirs)
+	for _, mp := range seedDirs {
+		data, err := os.ReadFile(mp)
+		if err != nil {
+			continue
+		}
+		var meta struct {
+			SeedID     string              `json:"seed_id"`
+			DetectedBy map[string][]string `json:"detected_by"`
+		}
+		if json.Unmarshal(data, &meta) != nil {
+			continue
+		}
+		if len(meta.DetectedBy[prop]) == 0 {
+			continue
+		}
+		jobs = append(jobs, job{meta.SeedID, "mutant", filepath.Join(filepath.Dir(mp), "patch.diff")})
+	}
+	neutral, _ := filepath.Glob(filepath.Join(verif, "neutral", "*.diff"))
+	sort.Strings(neutral)
+	for _, np := range neutral {
+		jobs = append(jobs, job{strings.TrimSuffix(filepath.Base(np), ".diff"), "neutral", np})
+	}
+	if len(jobs) == 0 {
+		return
+	}
+	base, err := os.MkdirTemp("", "rarecheck-selftest-")
+	if err != nil {
+		r.Notes = append(r.Notes, "self-test skipped: "+err.Error())
+		return
+	}
+	defer os.RemoveAll(base)
+	results := make([]selfTestCase, len(jobs))
+	var wg sync.WaitGroup
+	sem := make(chan struct{}, 6)
+	for i, j := range jobs {
+		wg.Add(1)
+		go func(i int, j job) {
+			defer wg.Done()
+			sem <- struct{}{}
+			defer func() { <-sem }()
+			res := selfTestCase{ID: j.id, Kind: j.kind}
+			dir := filepath.Join(base, fmt.Sprintf("c%03d", i))
+			defer os.RemoveAll(dir)
+			if out, err := exec.Command("cp", "-a", repo, dir).CombinedOutput(); err != nil {
+				res.Result, res.Detail = "skipped", "copy failed: "+strings.TrimSpace(string(out))
+				results[i] = res
+				return
+			}
+			ap := exec.Command("git", "apply", j.patch)
+			ap.Dir = dir
+			if out, err := ap.CombinedOutput(); err != nil {
+				res.Result, res.Detail = "skipped", "patch does not apply to the current tree: "+firstLine(string(out))
+				results[i] = res
+				return
+			}
+			cmd := exec.Command(self, "-property", prop, "-tier", "quick", "-repo", dir, "-verif", verif, "-no-evidence")
+			cmd.Env = append(os.Environ(), "RARECHECK_NO_SELFTEST=1")
+			out, err := cmd.CombinedOutput()
+			fired := err != nil
+			var rules []string
+			for _, ln := range strings.Split(string(out), "\n") {
+				if strings.HasPrefix(ln, "[violation]") || strings.HasPrefix(ln, "[undecided]") {
+					f := strings.Fields(ln)
+					if len(f) > 1 {
+						rules = append(rules, f[1])
+					}
+				}
+			}
+			switch j.kind {
+			case "mutant":
+				if fired {
+					res.Result, res.Detail = "detected", strings.Join(dedupStrings(rules), ",")
+				} else {
+					res.Result = "MISSED"
+				}
+			default:
+				if fired {
+					res.Result, res.Detail = "FALSE-ALARM", strings.Join(dedupStrings(rules), ",")
+				} else {
+					res.Result = "silent"
+				}
+			}
+			results[i] = res
+		}(i, j)
+	}
+	wg.Wait()
+	counts := map[string]int{}
+	for _, res := range results {
+		counts[res.Kind+":"+res.Result]++
+		if res.Result == "MISSED" || res.Result == "FALSE-ALARM" {
+			fmt.Fprintf(os.Stderr, "SELFTEST %s %s %s %s\n", prop, res.Kind, res.ID, res.Result+" "+res.Detail)
+		}
+	}
+	r.Extra["selftest"] = map[string]interface{}{
+		"what":    "seeded property-breaking mutants (expected: detected) and behaviour-preserving refactorings (expected: silent), applied to a scratch copy of the current working tree and analysed statically",
+		"counts":  counts,
+		"results": results,
+	}
+}
+
+func firstLine(s string) string {
+	s = strings.TrimSpace(s)
+	if i := strings.Index(s, "\n"); i >= 0 {
+		return s[:i]
+	}
+	return s
+}
